@@ -27,6 +27,9 @@ CLAIMED = {
  "C11": ("lattice", "bounded-exhaustive enumeration of malformed ciphertext elements (lengths, identifiers, structure operators, key types, GCM bit flips) with a totality + must-reject oracle",
          "Every CipherValue length 0..65 per algorithm (direct/wrapped), crafted padding bytes, encodings, identifier substitutions at both levels, single and paired structure operators, every admitted Go key type, every single-bit flip of AES-GCM cipher values, and the same elements as attacker-built EncryptedAssertion through ParseXMLResponse: Decrypt must return plaintext xor error, never panic, and must reject the classes the statement lists.",
          "DESIGN.md §3 C11", "element trees produced by the harness-side encryptor (engine/xenc) and mutated structurally; arbitrary bytes outside these families not covered"),
+ "C15": ("lattice", "exhaustive sub-range sweeps (dense nanosecond ranges, digit-sparse values, carries), bounded grammar enumeration of duration strings vs a reference recogniser, instant lattice, 2^14 metadata shapes with a fixed-point oracle",
+         "Durations: every value of dense and digit-sparse sub-ranges (thorough: all 1e9 sub-second values) x carries x sign round-trips exactly; every duration string of <=5 tokens agrees with a hand-written xsd:duration recogniser; instants on the year/date/time/rounding-edge/zone lattice round-trip to the ms-rounded UTC instant and documented lexical forms are accepted, others rejected; every library-generated SP/IdP metadata document and 2^14 generated EntityDescriptor shapes (plus EntitiesDescriptor by value/pointer) re-parse to an equal value and reach a fixed point after one generation.",
+         "DESIGN.md §3 C15", "encoding/xml; the reference xsd:duration recogniser in checks/c15.go; values outside the enumerated sub-ranges are not covered"),
 }
 
 ALL = ["C%02d" % i for i in range(1, 21)]
